@@ -1,6 +1,6 @@
 (** C06 — Reading discarded iff NIS > k*sqrt(2m)+m; a discard changes nothing. *)
 From mathcomp Require Import all_ssreflect all_algebra.
-From FV Require Import Theory.Psd gen.EkfA Proofs.Ekf.
+From FV Require Import Theory.Psd Theory.Diag gen.EkfA Proofs.Ekf.
 Set Implicit Arguments. Unset Strict Implicit. Unset Printing Implicit Defensive.
 Import Order.Theory GRing.Theory Num.Theory.
 Local Open Scope ring_scope.
@@ -39,6 +39,13 @@ Theorem C06_cpp_discard_is_identity : forall (F : realFieldType) (n m : nat)
   cpp_sensor_model rm x P z hx H Q = ((x, P), z - hx).
 Proof. by move=> F n m rm x P z hx H Q h; rewrite cpp_update_spec h. Qed.
 
+(** the exact executable decision used by the correspondence (Model/EkfExec.rm_exact: no square root) is the
+    regenerated threshold: k sqrt(2m) + m < nis  iff  0 < nis - m  and  2 m k^2 < (nis - m)^2 *)
+Theorem C06_squared_form_of_threshold : forall (R : rcfType) (k m nis : R), 0 <= k -> 0 <= m ->
+  (k * Num.sqrt (2%:R * m) + m < nis) = (0 < nis - m) && (2%:R * m * k ^+ 2 < (nis - m) ^+ 2).
+Proof. exact threshold_squared. Qed.
+
 Print Assumptions C06_py_remove_iff.
+Print Assumptions C06_squared_form_of_threshold.
 Print Assumptions C06_same_decision.
 Print Assumptions C06_py_discard_is_identity.
